@@ -1,5 +1,5 @@
 CONSTANTS
-  Idents = {"A", "Foo", "FooBar", "HTTPServer", "URL"}
+  Idents = {"UserId", "A", "Foo", "FooBar", "HTTPServer", "URL"}
   Renames = {"none", "x", "foo-bar"}
   Kinds = {"unit", "newtype", "struct"}
   RuleSet = {"none", "lowercase", "UPPERCASE", "PascalCase", "camelCase", "snake_case", "SCREAMING_SNAKE_CASE", "kebab-case", "SCREAMING-KEBAB-CASE"}
